@@ -1,4 +1,4 @@
-import ExaModel.Lemmas.FlowExaWF
+import ExaModel.Lemmas.FlowExaDecodeMain
 import ExaModel.Generated.FlowTable
 set_option linter.unusedSimpArgs false
 /-!
@@ -363,6 +363,69 @@ theorem good_text_wellformed (v6 : Bool) (text : List TComp) (hg : GoodText v6 t
     code by `code_constants`) -/
 theorem exa_length_is_rfc (n : Nat) : exaHi n = rfcHi n := rfl
 
+/-! ## ExaBGP's decoder against the reference decoder
+
+`exaDecode` is the model of `Flow.unpack_nlri` + `_parse_rules` (tied to the code by the decode
+correspondence run); `exaDelivered` is the rule a consumer reads from what it returns (operators
+through `exaStoredOp`, i.e. what `_parse_operations` stores).  The only side condition is the open
+finding F46: no IPv6 prefix with a non-zero offset (`NoOffset` on the reference's rule, `NoOffsetRaw`
+on what the code delivers) — the code reads `ceil(length/8)` address bytes there, RFC 8956
+`length - offset` pattern bits.  For IPv4 there is no side condition at all. -/
+
+/-- **(a) Every well-formed NLRI decodes in the code to the rule the reference extracts (partial: F46).**
+    Full statement: `decodeNlri v6 vpn bs = .ok (x, rest) → ∃ rc, exaDecode v6 vpn bs = .ok x.rd rc rest ∧
+    rc.map (exaDelivered v6) = x.rule`.  It is false of the code exactly when the rule holds an IPv6
+    prefix with offset ≠ 0 (witness below), so it is proved under `NoOffset x.rule`: then the model of
+    the code accepts, leaves the same bytes unread, returns the same route distinguisher, and the rule
+    it delivers is the reference's rule, component for component, operator for operator. -/
+theorem exa_decode_agrees_reference_partial (v6 vpn : Bool) (bs : Bytes) (x : Nlri) (rest : Bytes)
+    (h : decodeNlri v6 vpn bs = .ok (x, rest)) (h0 : NoOffset x.rule) :
+    ∃ rc, exaDecode v6 vpn bs = .ok x.rd rc rest ∧ rc.map (exaDelivered v6) = x.rule :=
+  exaDecode_of_reference v6 vpn bs x rest h h0
+
+/-- **(b) The code delivers only what the reference accepts — or an out-of-order NLRI (partial: F46).**
+    Whenever the model of the code returns a rule (without offset), the reference decoder either
+    returns exactly that rule, route distinguisher and rest, or rejects the NLRI for one reason only:
+    its components are not in strictly ascending order (the code keeps them in a dict by ID and never
+    checks the order; it then delivers all of them, regrouped — nothing is dropped). -/
+theorem exa_decode_only_reference_partial (v6 vpn : Bool) (bs : Bytes) (rd : Option Bytes) (cs : List RawComp)
+    (rest : Bytes) (h : exaDecode v6 vpn bs = .ok rd cs rest) (h0 : NoOffsetRaw cs) :
+    decodeNlri v6 vpn bs = .ok (⟨rd, cs.map (exaDelivered v6)⟩, rest) ∨ decodeNlri v6 vpn bs = .error .order :=
+  reference_of_exaDecode v6 vpn bs rd cs rest h h0
+
+/-- **(b) What the reference rejects as truncated or undefined is never delivered as a rule (partial: F46).**
+    If the reference rejects `bs` for any reason other than component order — empty, length field
+    running past the buffer, flow-vpn payload shorter than a route distinguisher, undefined component
+    type, prefix length out of range, prefix or value running past the payload, missing end-of-list —
+    then the model of the code does not return a rule (`NLRI.INVALID` or a raised Notify), unless what
+    it returns contains an IPv6 prefix with a non-zero offset (F46). -/
+theorem exa_decode_rejects_malformed_partial (v6 vpn : Bool) (bs : Bytes) (e : Err)
+    (h : decodeNlri v6 vpn bs = .error e) (he : e ≠ .order)
+    (rd : Option Bytes) (cs : List RawComp) (rest : Bytes) (hx : exaDecode v6 vpn bs = .ok rd cs rest) :
+    ¬ NoOffsetRaw cs := by
+  intro h0
+  rcases reference_of_exaDecode v6 vpn bs rd cs rest hx h0 with h' | h'
+  · rw [h] at h'; cases h'
+  · rw [h] at h'; simp only [Except.error.injEq] at h'; exact he h'
+
+/-- **IPv4: full agreement, no side condition.** The model of the code returns a rule for an IPv4
+    NLRI iff the reference accepts it or rejects it only for component order; when the reference
+    accepts, both return the same rule, route distinguisher and rest. -/
+theorem exa_decode_agrees_reference_ipv4 (vpn : Bool) (bs : Bytes) :
+    (∀ x rest, decodeNlri false vpn bs = .ok (x, rest) →
+      ∃ rc, exaDecode false vpn bs = .ok x.rd rc rest ∧ rc.map (exaDelivered false) = x.rule) ∧
+    (∀ rd cs rest, exaDecode false vpn bs = .ok rd cs rest →
+      decodeNlri false vpn bs = .ok (⟨rd, cs.map (exaDelivered false)⟩, rest) ∨
+      decodeNlri false vpn bs = .error .order) :=
+  ⟨fun x rest h => exaDecode_of_reference false vpn bs x rest h (noOffset_of_reference_v4 vpn bs x rest h),
+   fun rd cs rest h => reference_of_exaDecode false vpn bs rd cs rest h (noOffsetRaw_of_exaDecode_v4 vpn bs rd cs rest h)⟩
+
+/-- the stored operator (`exaStoredOp`) read back is the RFC meaning of the operator byte: reserved
+    bits dropped, the AND bit of the first operator unset -/
+theorem stored_operator_meaning (numeric first : Bool) (op : Nat) (val : Bytes) :
+    storedTerm numeric (exaStoredOp numeric first op) val = interpTerm numeric first ⟨op, val⟩ :=
+  storedTerm_exaStoredOp numeric first op val
+
 /-! ## Non-vacuity and witnesses -/
 
 /-- a rule with a prefix, a numeric list with AND and a two-byte value, and a bitmask: well-formed -/
@@ -428,6 +491,32 @@ example : exaPack Exa.Generated.FlowTable.sizeOf false none sampleText
 example : toRule false sampleText =
     [.prefix4 1 24 0x0A0000, .ops 3 [⟨false, false, false, true, 6⟩],
      .ops 5 [⟨false, false, false, true, 80⟩, ⟨false, false, true, false, 1024⟩, ⟨true, true, false, false, 2048⟩]] := by decide
+
+/-! ### Decoder agreement: non-vacuity and the named exceptions -/
+
+/-- hypotheses of (a) hold on a concrete NLRI (sampleRule with its length octet) and the conclusion is what it says -/
+example : decodeNlri false false (20 :: encodeFlow sampleRule) = .ok (⟨none, sampleRule⟩, []) ∧ NoOffset sampleRule := by decide
+example : exaDecode false false (20 :: encodeFlow sampleRule) = .ok none (sampleRule.map toRaw) [] ∧
+    (sampleRule.map toRaw).map (exaDelivered false) = sampleRule := by decide
+/-- reserved bits and a first-operator AND are not delivered: `04 ce 50` (port, e|a|reserved|lt|gt, 80) is `port !=80` -/
+example : exaDecode false false [3, 4, 0xce, 0x50] = .ok none [.ops 4 [⟨0xce, [0x50]⟩]] [] ∧
+    exaDelivered false (.ops 4 [⟨0xce, [0x50]⟩]) = .ops 4 [⟨false, true, true, false, 80⟩] := by decide
+/-- hypotheses of (b): a truncated value, an undefined component — the model of the code says INVALID -/
+example : decodeNlri false false [6, 1, 8, 10, 5, 0x91, 0x50] = .error .valueShort ∧
+    exaDecode false false [6, 1, 8, 10, 5, 0x91, 0x50] = .invalid [] := by decide
+example : decodeNlri false false [6, 1, 8, 10, 13, 0x81, 5] = .error .undefinedType ∧
+    exaDecode false false [6, 1, 8, 10, 13, 0x81, 5] = .invalid [] := by decide
+/-- the order exception of (b): destination-port before protocol is rejected by the reference and delivered
+    (regrouped, complete) by the code -/
+example : decodeNlri false false [6, 5, 0x81, 80, 3, 0x81, 6] = .error .order ∧
+    exaDecode false false [6, 5, 0x81, 80, 3, 0x81, 6] = .ok none [.ops 3 [⟨0x81, [6]⟩], .ops 5 [⟨0x81, [80]⟩]] [] := by decide
+/-- **F46 witness for (a):** the RFC 8956 §3.8.2 example is accepted by the reference and INVALID for the code -/
+example : decodeNlri true false [8, 2, 0x68, 0x40, 0x12, 0x34, 0x56, 0x78, 0x9a] = .ok (⟨none, [.prefix6 2 104 64 0x123456789a]⟩, []) ∧
+    exaDecode true false [8, 2, 0x68, 0x40, 0x12, 0x34, 0x56, 0x78, 0x9a] = .invalid [] := by decide
+/-- **F46 witness for (b):** `destination ::/16` offset 8 followed by a truncated component: the reference rejects,
+    the code swallows the next component's type as an address byte and delivers the prefix alone -/
+example : decodeNlri true false [5, 1, 16, 8, 0xaa, 3] = .error .noEol ∧
+    exaDecode true false [5, 1, 16, 8, 0xaa, 3] = .ok none [.prefix6 1 16 8 [0xaa, 3]] [] := by decide
 
 /-! ### Witnesses: where the model of the unchanged code departs from the RFC (each reproduced on the real
     code by the correspondence run and reported by the oracle) -/
